@@ -40,10 +40,11 @@ OpsOn(st) ==
       {Op("setvar", n, k, v) : n \in MainNames, k \in {"scalar", "indexed", "assoc"}, v \in Values}
  \cup {Op("setexported", n, "scalar", v) : n \in MainNames, v \in Values}
  \cup {Op("setvar", "TMPDIR_ORIG", "scalar", "plain"), Op("setexported", "TMPDIR_ORIG", "scalar", "plain")}
- \* a variable given through the test case's `environment` configuration (only for names the session does not hold yet:
- \* what a configured value means for a name the restored state also defines is not specified); it behaves like an exported
- \* variable of that test case's shell and is carried on like one
- \cup {Op("cfgenv", n, "scalar", v) : n \in {x \in MainNames : st.vars[x].kind = "unset"}, v \in Values}
+ \* a variable given through the test case's `environment` configuration: it is "explicitly set for the test" - it behaves
+ \* like `export NAME=value` typed before the expression, also when the session already holds that name (since /repo
+ \* 2fae0d9; before, the restored state won), and is carried on like any exported variable.  (Names that currently are
+ \* arrays are left out: what `export` means for them is bash's business, not the carrier's.)
+ \cup {Op("cfgenv", n, "scalar", v) : n \in {x \in MainNames : st.vars[x].kind \in {"unset", "scalar"}}, v \in Values}
  \cup {Op("unsetvar", n, "-", "-") : n \in {x \in VarNames : st.vars[x].kind # "unset"}}
  \cup {Op("export", n, "-", "-") : n \in {x \in VarNames : st.vars[x].kind = "scalar" /\ ~st.vars[x].ex}}
  \cup {Op("unexport", n, "-", "-") : n \in {x \in VarNames : st.vars[x].ex}}
